@@ -816,6 +816,18 @@ def expected_writes(before, f, h: Hist, now, out: str):
     return w, missing
 
 
+def specified_writes(before, o, f, h, now):
+    """(the writes the property specifies for the decoded line `f` received in the state `before` and ending in the
+    observation `o`, do the observed write attempts equal them).  `h` supplies the configuration (`h.metric`)."""
+    got = [line for line, _ in o["writes"]]
+    want, _ = expected_writes(before, f, h, now, o["out"])
+    # version query: unknown before, still unknown after, message not log / gateway ready
+    if before["pv"] is None and o["pv"] is None and not (f[2] == 3 and f[4] in (9, 14)):
+        want = want + ["0;255;3;0;2;\n"]
+    norm = [re.sub(r"^(\d+;\d+;1;)[01];", r"\1__ACK__;", g) if "__ACK__" in wl else g for g, wl in zip(got, want + [""] * len(got))]
+    return want, len(got) == len(want) and norm == want
+
+
 def check_writes(corr: Corr, h: Hist, io, i, op, what_prefix: str, only=None):
     """Compare the observed writes of a fault-free receive step with the expected ones."""
     before, o = io[i], io[i + 1]
@@ -827,12 +839,8 @@ def check_writes(corr: Corr, h: Hist, io, i, op, what_prefix: str, only=None):
             corr.violate(what_prefix + "a rejected line produced writes", case)
             return False
         return True
-    want, _ = expected_writes(before, f, h, op[3], o["out"])
-    # version query: unknown before, still unknown after, message not log / gateway ready
-    if before["pv"] is None and o["pv"] is None and not (f[2] == 3 and f[4] in (9, 14)):
-        want = want + ["0;255;3;0;2;\n"]
-    norm = [re.sub(r"^(\d+;\d+;1;)[01];", r"\1__ACK__;", g) if "__ACK__" in wl else g for g, wl in zip(got, want + [""] * len(got))]
-    if len(got) != len(want) or norm != want:
+    want, ok = specified_writes(before, o, f, h, op[3])
+    if not ok:
         corr.violate(what_prefix + "the writes are not exactly the specified reactions", {**case, "want": want})
         return False
     return True
@@ -846,7 +854,10 @@ def run_c06(ctx) -> Corr:
                 "reboot, presentation request, released commands, version query); in addition the write attempts of every "
                 "received line are compared with the Lean specification expectedAttempts (Model/WriteSpec.lean, theorem "
                 "writes_eq_attempts) evaluated by the driver at the state before the line. non-trivial = distinct (state, line) "
-                "that produces at least one write")
+                "that produces at least one write; plus (oracle only, props/quietwrites.py) the write log over whole sessions "
+                "of gateways with a persistence file written beforehand (absent, empty, placeholder, 1.x, 2.x, sleeping, mixed; "
+                "both layouts): entering, idling on virtual time, leaving, entering again (same / new object) must write "
+                "nothing, every received line exactly its specified reactions")
     hists = [h for _, h in corpus_histories("C06")] + histories(ctx, "c06h", 300, 5000, send_ratio=0.15, fault_ratio=0.0)
     # failing writes: only the comparison with the Lean specification (expectedAttempts) looks at these steps
     hists += histories(ctx, "c06f", 60, 1000, send_ratio=0.3, fault_ratio=0.3, cancel_ratio=0.35)
@@ -900,6 +911,10 @@ def run_c06(ctx) -> Corr:
                              {"history": Hist(h.version, h.metric, h.preload, h.ops[: i + 1]).to_json()})
                 break
     account(corr, hists, impl, lambda h, op, before, o: op[0] == "recv" and bool(o["writes"]))
+    # "writes ONLY as a reaction to a received message": the write log of whole sessions of gateways with a persistence
+    # file - entering (registries of every kind restored), idling, leaving, entering again - must hold nothing else
+    from . import quietwrites
+    quietwrites.run(corr, ctx)
     return corr
 
 
